@@ -793,9 +793,10 @@ def a1_area_volume(ctx):
         ctx.fail("C07-A1", site, "face_area: polygon fan `area[T] += triangle_area(p[i], p[i+1], centre)` not found", "")
     else:
         st = fans[0]
-        lp = [a for a in au.ancestors(st) if isinstance(a, ast.For)][0]
-        iv = lp.target.id if isinstance(lp.target, ast.Name) else None
-        trip = b.resolve(lp.iter.args[0], at=lp) if isinstance(lp.iter, ast.Call) and au.call_tail(lp.iter) == "range" and len(lp.iter.args) == 1 else None
+        lps = [a for a in au.ancestors(st) if isinstance(a, ast.For)]
+        lp = lps[0] if lps else None
+        iv = lp.target.id if lp is not None and isinstance(lp.target, ast.Name) else None
+        trip = b.resolve(lp.iter.args[0], at=lp) if lp is not None and isinstance(lp.iter, ast.Call) and au.call_tail(lp.iter) == "range" and len(lp.iter.args) == 1 else None
         offs, centre, colls = [], 0, set()
         for a in st.value.args:
             e = b.resolve(a, at=st, keep=(iv,))
@@ -814,7 +815,7 @@ def a1_area_volume(ctx):
         trip_ok = trip is not None and isinstance(trip, ast.Call) and au.call_tail(trip) == "len" and len(colls) == 1 \
             and au.norm(trip.args[0]) in colls
         ok = sorted(offs, key=lambda x: (x is None, x)) in ([0, 1], [-1, 0]) and centre == 1 and trip_ok \
-            and isinstance(st.op, ast.Add) and not au.guards(st, stop=lp)
+            and isinstance(st.op, ast.Add) and lp is not None and not au.guards(st, stop=lp)
         ctx.check(ok, "C07-A1", ctx.site(mod, fn, st),
                   f"face_area: the polygon fan uses point offsets {offs} modulo the loop length with {centre} centre argument(s) "
                   f"(expected consecutive points i, i+1 modulo the number of points and the barycentre, added for every i)",
